@@ -9,8 +9,11 @@ stays seated is dealt into the next; a busted player who re-buys is eligible aga
 and a seated-in player with chips never misses more than three hands in a row.
 
 Proved here (for every state / seat map): who is dealt in at an open; at least two; the has-chips refresh after a
-hand and on re-buy / add-on; a dealt-in player stays dealt in through a rotation.  The waiting flag of a newly seated
-player and the bound of three missed hands are checked by the monitors on every run (`C05.newcomer-waiting-flag-wrong`,
+hand and on re-buy / add-on; a dealt-in player stays dealt in through a rotation.  The "same terms as a newcomer" clause for
+re-buyers is proved for ring-after-ring rotations (`C05_rebuy_same_terms_ring_partial`) and *fails* when the rotation
+yields a heads-up hand (finding D25, witness `C05_rebuy_same_terms_fails_on_witness`, monitored as
+`C05.re-buyer-not-on-the-same-terms-as-a-newcomer…`).  The waiting flag of a newly seated player and the bound of
+three missed hands are checked by the monitors on every run (`C05.newcomer-waiting-flag-wrong`,
 `C05.seated-in-player-with-chips-missed-more-than-three-hands`) and are not theorems yet (DESIGN.md, C05).
 -/
 namespace TB
@@ -70,6 +73,42 @@ theorem C05_stays_in (st : State) (i : Int) (hact : activeAt st.seats i = true) 
       · rw [rotate_ring st hgt hu]; exact reflag_keeps_active _ _ _ _ _ hact
       · rw [rotate_ring_hu st hgt hu]
         exact reflag_keeps_active _ _ _ _ _ (reflag_keeps_active _ _ _ _ _ hact)
+
+/-- **C05 (partial) — a busted player who re-buys is eligible on the same terms as a newcomer**, ring hand after ring
+hand: after an accepted rotation with three or more dealt in that does not come from a heads-up hand, every occupant
+who was not active (busted, sitting out, still waiting) carries exactly the waiting flag `AssignSeats` would give a
+newcomer seated there now — `isBetween` of the *published* button and big-blind seats. A later re-buy only sets
+`hasChips` (`C05_set_chips`), so the re-buyer then waits, or not, exactly like a newcomer on that seat. -/
+theorem C05_rebuy_same_terms_ring_partial (st : State) (h3 : 3 ≤ activeCount st.maxSeat (seats1 st)) (hu : isHU st = false)
+    (i : Int) (p : SeatPlayer) (hp : st.seats i = some p) (hna : p.active = false) :
+    ∃ q, (rotateDefault st).1.seats i = some q ∧ q.id = p.id ∧
+      q.between = isBetween st.maxSeat (rotateDefault st).1.dealer (rotateDefault st).1.bb i := by
+  rw [rotate_ring st h3 hu]
+  refine ⟨{ p with between := isBetween st.maxSeat st.sb (nextAlive st st.bb) i }, ?_, rfl, rfl⟩
+  show seats1 st i = _
+  unfold seats1 reflag
+  simp [hp, hna]
+
+/-- D25: the full clause fails when the rotation yields a heads-up hand: the waiting flags are computed against the
+*tentative* button (the previous small-blind seat) while the published button is the seat after the big blind.
+6 seats, previous hand D=1 SB=3 BB=5; seats 1 and 3 busted, seats 4 and 5 play on. -/
+def witnessD25 : State :=
+  { maxSeat := 6, rule := .default, isInit := true, dealer := 1, sb := 3, bb := 5,
+    seats := seatsOfList [none,
+      some { id := 4, isIn := true, between := false, hasChips := false }, none,
+      some { id := 3, isIn := true, between := false, hasChips := false },
+      some { id := 5, isIn := true, between := false, hasChips := true },
+      some { id := 1, isIn := true, between := false, hasChips := true }] }
+
+/-- after the rotation (D = SB = 5, BB = 4) the busted player on seat 3 is flagged "not waiting", while a newcomer
+given seat 2 at that moment is flagged "waiting" and so would be one given seat 3: the re-buyer of seat 3 is dealt into
+the next hand at once, the newcomer is not -/
+theorem C05_rebuy_same_terms_fails_on_witness :
+    (rotateDefault witnessD25).2 = .ok ∧
+    ((rotateDefault witnessD25).1.dealer, (rotateDefault witnessD25).1.sb, (rotateDefault witnessD25).1.bb) = (5, 5, 4) ∧
+    ((rotateDefault witnessD25).1.seats 3).map (·.between) = some false ∧
+    isBetween 6 (rotateDefault witnessD25).1.dealer (rotateDefault witnessD25).1.bb 3 = true ∧
+    (((place (rotateDefault witnessD25).1 9 2).seats 2).map (·.between)) = some true := by decide
 
 /-- has-chips refresh (continueGame, re-buy, add-on): `UpdatePlayerHasChips` sets exactly that player's flag -/
 theorem C05_set_chips (st : State) (id : Nat) (b : Bool) (h : hasPlayer st id = true) :
